@@ -12,7 +12,7 @@
 (* The implementation-level statement (TraceRejection) compares the        *)
 (* measured A_k / A with the documented pmf of RejectionTable.             *)
 (***************************************************************************)
-EXTENDS Ord, RejectionTable, Sequences, Integers, FiniteSets, IOUtils
+EXTENDS Ord, RejectionTable, BetaTable, Sequences, Integers, FiniteSets, IOUtils
 
 RT == IF "TIER" \in DOMAIN IOEnv /\ IOEnv.TIER = "thorough" THEN RTableT ELSE RTable
 
@@ -27,7 +27,23 @@ Near(a, b, d) == LLE(a, LAdd(b, d)) /\ LLE(b, LAdd(a, d))
 \* (f32 evaluation of powf/exp/ln in the acceptance ratio: relative error of a few 2^-24, amplified by s <= 10)
 Tol(p) == LAdd(<<4, 0, 0>>, LShr(p, 14))       \* <<4,0,0>> = 2^44 = 2^-20 * 2^64
 
+BT == IF "TIER" \in DOMAIN IOEnv /\ IOEnv.TIER = "thorough" THEN BTableT ELSE BTable
 RCase(id) == RT[id]
+BCase(id) == BT[id]
+
+\* continuous output (Beta, Cheng BB/BC: the output is a function of the proposal word alone, the acceptance region a prefix
+\* of the acceptance lattice): the cumulative mass C[j] = A_{<= x_j} / A at the anchors of BetaTable must lie in the bracket
+\* [F(x(1 - 2^-20)), F(x(1 + 2^-20))] of the documented CDF, up to 2^-20 (16 steps of the 2^-24 uniform: the f32 rounding of
+\* the output near the ends of (0, 1) and of exp/ln in the acceptance test)
+CSlack == <<4, 0, 0>>
+CdfOK(C, c) == /\ Len(C) = Len(c.anchors)
+               /\ \A j \in 1..Len(C) : LLE(c.anchors[j].lo, LAdd(C[j], CSlack)) /\ LLE(C[j], LAdd(c.anchors[j].hi, CSlack))
+BTableOK == \A c \in 1..Len(BT) :
+               LET A == BT[c].anchors IN
+               /\ BT[c].id = c /\ Len(A) >= 5
+               /\ \A k \in 1..Len(A) : LLE(A[k].lo, A[k].hi)
+               /\ \A k \in 1..(Len(A) - 1) : LLE(A[k].lo, A[k + 1].lo) /\ LLE(A[k].hi, A[k + 1].hi)
+ASSUME BTableOK
 
 PmfOK(P, tail, c) ==
     /\ Len(P) = Len(c.pmf)
